@@ -164,7 +164,10 @@ func (a *awaitRec) doFire(c *mon.Case) {
 func promiseRaceCase(c *mon.Case) {
 	r := c.Rng
 	nSet, nAwait := 1+r.IntN(6), 1+r.IntN(8)
-	pre := r.IntN(10) == 0
+	if r.IntN(8) == 0 {
+		nSet = 0 // nobody ever resolves: awaiters must still honour their interruption sources
+	}
+	pre := r.IntN(10) == 0 && nSet > 0
 	var p *promise.Promise[int]
 	preErr := resultErr(r.IntN(4))
 	if pre {
@@ -241,7 +244,7 @@ func promiseRaceCase(c *mon.Case) {
 	}
 	c.Count("single_winner_checked", 1)
 	wantWins := int64(1)
-	if pre {
+	if pre || nSet == 0 {
 		wantWins = 0
 	}
 	if wins.Load() != wantWins {
@@ -255,9 +258,18 @@ func promiseRaceCase(c *mon.Case) {
 	}
 	for _, a := range aw {
 		if !a.returned.Load() {
-			// a result exists (every setter returned): no awaiter may still be blocked
+			fired := a.fireStamp.Load() != 0
+			if nSet == 0 && !pre && !fired {
+				a.cancel() // legitimately blocked: no result and nothing fired
+				continue
+			}
+			// a result exists (every setter returned) or the awaiter's interruption source fired: it may not still be blocked
 			if mon.QuiesceConfirmed(100*time.Millisecond, 10*time.Second) && !a.returned.Load() {
-				c.Violate("lost-wakeup", "promise-awaiter-blocked-with-result", "awaiter %d (kind %d) is still blocked in a quiescent process although the promise has a result", a.id, a.kind)
+				if nSet == 0 && !pre {
+					c.Violate("lost-wakeup", "promise-awaiter-ignores-interruption", "awaiter %d (kind %d, interruption %d) is still blocked in a quiescent process although its context / error channel / cancel channel fired (no result was ever set)", a.id, a.kind, a.fire)
+				} else {
+					c.Violate("lost-wakeup", "promise-awaiter-blocked-with-result", "awaiter %d (kind %d) is still blocked in a quiescent process although the promise has a result", a.id, a.kind)
+				}
 			}
 			a.cancel()
 			continue
